@@ -159,7 +159,7 @@ def reference(ts, args=()):
         return ("pool", "unpickle-result")
     if kind == "nested":
         return ("nested", None)
-    if kind == "child":
+    if kind in ("child", "nested_leave"):
         return ("value", ["ok", ts["id"]])
     raise sk.HarnessError("no reference for %r" % (ts,))
 
